@@ -22,6 +22,10 @@ TraceInit ==
   /\ good = TRUE /\ tainted = FALSE
   /\ l = 0 /\ bad = << >> /\ f3 = << >> /\ bad8 = << >>
 
+\* the summary the composed collector publishes - when built, and again after a reload handle was switched - against the
+\* stack's meaning at that moment
+SummaryBad(r) == \/ r.op = "build" /\ "summary" \in DOMAIN r /\ ~SummaryOk(r.summary)
+                 \/ r.op = "swap" /\ "summary" \in DOMAIN r /\ ~SummaryOkIn(r.flat, r.summary)
 Judge(r) ==
   LET ok == ~("panic" \in DOMAIN r) /\ OpOk(r, Target(r)) /\ ExistsOk(r)
             /\ (Mode = "c09" /\ "regs" \in DOMAIN r => RegsOk(r.regs))
@@ -30,10 +34,10 @@ Judge(r) ==
   IN /\ Effect(r)
      /\ good' = (good /\ ok)
      \* an unsound whole-stack summary (C08) makes every later delivery in this history suspect
-     /\ tainted' = (tainted \/ isf3 \/ (r.op = "build" /\ "summary" \in DOMAIN r /\ ~SummaryOk(r.summary)))
+     /\ tainted' = (tainted \/ isf3 \/ SummaryBad(r))
      /\ bad' = (IF ok \/ isf3 THEN bad ELSE Append(bad, l + 1))
      /\ f3' = (IF isf3 THEN Append(f3, l + 1) ELSE f3)
-     /\ bad8' = (IF r.op = "build" /\ "summary" \in DOMAIN r /\ ~SummaryOk(r.summary) THEN Append(bad8, l + 1) ELSE bad8)
+     /\ bad8' = (IF SummaryBad(r) THEN Append(bad8, l + 1) ELSE bad8)
 
 TraceNext ==
   /\ l < Len(Rec)
